@@ -191,11 +191,14 @@ async fn query_data(_data: web::Data<AppState>) -> impl Responder {
 #[post("/query")]
 async fn query(data: web::Data<AppState>, req_body: web::Json<QueryRequest>) -> impl Responder {
     log::debug!("Query: {:?}", req_body);
-    let result = data
+    let x = data
         .db
         .run_query(&req_body.query, false, true, vec![])
-        .await
-        .unwrap();
+        .await;
+    let result = match map_err_response(x) {
+        Ok(result) => result,
+        Err(err) => return err,
+    };
 
     let response = json!({
         "colnames": result.colnames,
